@@ -49,8 +49,6 @@ func findingCorpus() []*Case {
 		{Tables: []Table{one}, Q: sel(tbl(0), not(&Expr{Op: "inq", A: col(0, 0), Q: sel(tbl(0), tru(), konst(null()))}), col(0, 0))},
 		// EXISTS over an aggregate without GROUP BY (always one row) over an empty input
 		{Tables: []Table{one, empty}, Q: sel(tbl(0), exists(gagg(tbl(1), tru(), "max", col(0, 0))), col(0, 0))},
-		// IN over an aggregate without GROUP BY whose input is empty
-		{Tables: []Table{one, empty}, Q: sel(tbl(0), &Expr{Op: "inq", A: ci(0), Q: gagg(tbl(1), konst(null()), "countd", col(1, 0))}, col(0, 0))},
 		// 0.00 IN (SELECT SUM(0.00) FROM t): the aggregate's DECIMAL does not match the literal
 		{Tables: []Table{one}, Q: sel(tbl(0), &Expr{Op: "inq", A: cd(0), Q: gagg(tbl(0), tru(), "sum", cd(0))}, col(0, 0))},
 		// EXISTS (... LIMIT 0)
@@ -89,8 +87,6 @@ func findingCorpus() []*Case {
 			Q: sel(tbl(0), tru(), &Expr{Op: "scalar", Q: gagg(tbl(1), cmp("=", col(1, 0), ci(3)), "count*", tru())})},
 		// INT primary key joined with a non-integral DECIMAL
 		{Tables: []Table{pk}, Q: sel(join("inner", tbl(0), tbl(0), cmp("=", col(0, 0), col(0, 3))), tru(), col(0, 0), col(0, 3))},
-		// UNION of SUM(int) (DOUBLE in the engine) with an INT column yields text
-		{Tables: []Table{one}, Q: &Query{K: "setop", SOp: "union", All: true, L: gagg(tbl(0), tru(), "sum", col(0, 0)), R: sel(tbl(0), tru(), col(0, 0))}},
 		// an uncorrelated EXISTS filter inside a correlated subquery is hoisted and the subquery is then cached across outer rows
 		{Tables: []Table{{Types: []string{"int"}, PK: -1, Rows: iv(5, nil)}, {Types: []string{"int"}, PK: -1, Rows: iv(7)}},
 			Q: sel(tbl(0), not(&Expr{Op: "inq", A: ci(1), Q: sel(tbl(1), exists(sel(tbl(0), tru(), ci(1))), col(1, 0))}), col(0, 0))},
